@@ -897,4 +897,55 @@ example : scatterAllStatic true (some [.known 2, .sym "M"]) (some [.known 2, .sy
 example : getShapeValue (some ⟨true, 1, [3, -1]⟩) none = some [.known 3, .known (-1)] := by decide
 example : getShapeValue (some ⟨false, 1, [3]⟩) (some [.sym "N"]) = some [.sym "N"] := by decide
 
+/-! ## `Gather` on a shape value against the operator specification -/
+
+/-- Restatement of `gather_shape_const` against `onnxGatherAxis0` (bounds `[-s, s-1]`, negative indices count from
+the end): whatever the evaluator records/returns is truthful for the operator's output, for every binding. -/
+theorem gather_shape_spec (s : Shape) (idx : List Int) (r : SymConst)
+    (h : evalGather (some s) (some 0) (some idx) = .ret (some r))
+    (σ : String → Nat) (l : List Int) (hs : Admits σ s l) :
+    ∃ sv out, r.sym = some sv ∧ onnxGatherAxis0 l idx = some out ∧ Admits σ sv out ∧ (∀ c, r.const = some c → c = out) := by
+  obtain ⟨sv, out, h1, h2, h3, h4⟩ := gather_shape_const s idx r h σ l hs
+  exact ⟨sv, out, h1, by rw [onnxGatherAxis0_eq]; exact h2, h3, h4⟩
+
+/-- The evaluator raises (Python `IndexError`, which aborts the fold pass) exactly on the index lists the operator
+itself rejects at run time — it never raises on a model that runs, and never records a value for one that does not. -/
+theorem gather_raises_iff_spec_rejects (s : Shape) (idx : List Int) (σ : String → Nat) (l : List Int)
+    (hs : Admits σ s l) :
+    evalGather (some s) (some 0) (some idx) = .raised ↔ onnxGatherAxis0 l idx = none := by
+  have hl := admits_length hs
+  rw [onnxGatherAxis0_eq]
+  simp only [evalGather, ne_eq, not_true_eq_false, if_false]
+  have key : seqOpt (idx.map (pyIndex s)) = none ↔ seqOpt (idx.map (pyIndex l)) = none := by
+    rw [seqOpt_isNone_iff, seqOpt_isNone_iff]
+    simp only [List.mem_map]
+    constructor
+    · rintro ⟨x, ⟨i, hi, rfl⟩, hx⟩
+      refine ⟨_, ⟨i, hi, rfl⟩, ?_⟩
+      have := pyIndex_isSome_of_length s l hl i
+      rw [hx] at this
+      cases hp : pyIndex l i with
+      | none => rfl
+      | some v => rw [hp] at this; cases this
+    · rintro ⟨x, ⟨i, hi, rfl⟩, hx⟩
+      refine ⟨_, ⟨i, hi, rfl⟩, ?_⟩
+      have := pyIndex_isSome_of_length s l hl i
+      rw [hx] at this
+      cases hp : pyIndex s i with
+      | none => rfl
+      | some v => rw [hp] at this; cases this
+  cases hg : seqOpt (idx.map (pyIndex s)) with
+  | none => exact ⟨fun _ => key.mp hg, fun _ => rfl⟩
+  | some g =>
+    constructor
+    · intro hc; cases hc
+    · intro hn
+      have := key.mpr hn
+      rw [hg] at this; cases this
+
+example : onnxGatherAxis0 [7, 8, 9] [-1, 0, -3] = some [9, 7, 7] := by decide
+example : onnxGatherAxis0 [7, 8, 9] [3] = none := by decide
+example : evalGather (some [.sym "N", .known 4]) (some 0) (some [-1]) = .ret (some ⟨some [.known 4], some [4]⟩) := by decide
+example : evalGather (some [.sym "N", .known 4]) (some 0) (some [-3]) = .raised := by decide
+
 end OV.Props.C09
